@@ -18,11 +18,11 @@ func init() {
 	core.Register(&core.Prop{
 		ID:    "C11",
 		Level: "exploration",
-		Rule: "case = multiset of (value, dyadic weight in (0,2^20]) with total weight W from 2^-10 upward (half of the cases W<1), reached by weighted adds or by reweighting down (a quarter of the cases on an object that held as many other values before and was cleared, a quarter on a copy that absorbs the rest of the items), on every store kind (collapsing ones wide enough not to fold) and mapping kind; q grid incl. 0, 1, cumulative-interval boundaries; " +
+		Rule: "case = multiset of (value, dyadic weight in (0,2^20]) with total weight W from 2^-10 upward (half of the cases W<1), reached by weighted adds or by reweighting down (a quarter of the cases on an object that held as many other values before and was cleared, a quarter on a copy that absorbs the rest of the items, a fifth receiving the tail of the items as the encoding of another sketch decoded into them after a query), on every store kind (collapsing ones wide enough not to fold) and mapping kind; q grid incl. 0, 1, cumulative-interval boundaries, asked one by one and as one batch (either first); " +
 			"oracle: the answer is within (alpha+64u) of some absorbed item whose cumulative-weight interval is within distance 1 of q*(W-1), lies within [GetMinValue, GetMaxValue], is >=0 if nothing negative was absorbed, <=0 if nothing positive, and 0 only if the zero bucket holds weight. " +
 			"Non-trivial = W<1 or >=1 non-integer weight; distinct = hash of (mapping, store, items).",
 		Cases:     core.Scale(150000, 4000000),
-		Mandatory: []string{"oracle.weighted_quantile_checks", "total_weight.lt1", "total_weight.ge1", "reached_by.reweight", "reached_by.weighted_adds", "reached_by.reweight_then_more_adds", "query.on_interval_boundary", "reached_by.reuse_after_clear", "reached_by.continuing_on_a_copy"},
+		Mandatory: []string{"oracle.weighted_quantile_checks", "total_weight.lt1", "total_weight.ge1", "reached_by.reweight", "reached_by.weighted_adds", "reached_by.reweight_then_more_adds", "query.on_interval_boundary", "reached_by.reuse_after_clear", "reached_by.continuing_on_a_copy", "reached_by.decode_into_queried_sketch", "oracle.batch_answers_judged"},
 		Run:       runC11,
 	})
 	core.Register(&core.Prop{
@@ -159,7 +159,54 @@ func runC11(c *core.Ctx) {
 		c.Logf("earlier life: the same %d weights on values scaled by %v, then Clear", len(items), shift)
 		c.Count("reached_by.reuse_after_clear", 1)
 	}
-	if !addAll(items) {
+	// a fifth of the sketches absorb the tail of their items as the encoding of another sketch, decoded into them
+	// after they answered a query (weights that survive the encoding's +1/-1 transform only)
+	decAt := -1
+	if copyAt < 0 && len(items) >= 2 && r.P(0.2) {
+		decAt = r.Range(1, len(items)-1)
+		for _, it := range items[decAt:] {
+			if (it.W+1)-1 != it.W {
+				decAt = -1
+				break
+			}
+		}
+	}
+	if decAt > 0 {
+		tail := items[decAt:]
+		if !addAll(items[:decAt]) {
+			return
+		}
+		tspec := gen.StoreSpec{Kind: r.Intn(3)}
+		if r.Bool() {
+			tspec = spec
+		}
+		t := mon.NewSketch(exact, m.M, tspec) // same variant: an exact sketch needs the statistics blocks of what it decodes
+		var err error
+		if c.Guard("decode into a queried sketch", func() {
+			for _, it := range tail {
+				c.SigF(it.V)
+				c.SigF(it.W)
+				if err = t.I().AddWithCount(it.V, it.W); err != nil {
+					return
+				}
+			}
+			s.I().GetValueAtQuantile(r.Float())
+			if r.Bool() {
+				s.I().GetMaxValue()
+			}
+			var b []byte
+			t.I().Encode(&b, r.Bool())
+			err = s.I().DecodeAndMergeWith(b)
+		}) {
+			return
+		}
+		if err != nil {
+			c.Failf("DecodeAndMergeWith.error", "decoding the encoding of a %s sketch holding %d items: %v", tspec, len(tail), err)
+			return
+		}
+		c.Logf("the last %d items arrive as the encoding of a %s sketch, decoded after a query", len(tail), tspec)
+		c.Count("reached_by.decode_into_queried_sketch", 1)
+	} else if !addAll(items) {
 		return
 	}
 	if viaReweight {
@@ -318,66 +365,115 @@ func runC11(c *core.Ctx) {
 		c.Count("query.on_interval_boundary", 1) // every rank is clamped to the first boundary
 	}
 	tol := 1e-9 * math.Max(1, W)
+	var vq []float64
 	for _, q := range qs {
-		if !(q >= 0 && q <= 1) {
-			continue
+		if q >= 0 && q <= 1 {
+			vq = append(vq, q)
 		}
-		var y float64
-		var err error
-		if c.Guard("GetValueAtQuantile", func() { y, err = k.GetValueAtQuantile(q) }) {
+	}
+	// the batch query is an entry point of its own: every one of its answers is judged like a single answer.
+	// Half of the cases ask it first (before any single query), the others after the single ones.
+	var batch, batchPlain []float64
+	askBatch := func() bool {
+		var err, perr error
+		if c.Guard("GetValuesAtQuantiles", func() {
+			batch, err = k.GetValuesAtQuantiles(vq)
+			if exact {
+				batchPlain, perr = s.E.DDSketch.GetValuesAtQuantiles(vq)
+			}
+		}) {
+			return false
+		}
+		if err != nil || perr != nil || len(batch) != len(vq) || (exact && len(batchPlain) != len(vq)) {
+			c.Failf("quantile.error", "GetValuesAtQuantiles(%d valid q) on a non-empty sketch: %d answers, %v %v", len(vq), len(batch), err, perr)
+			return false
+		}
+		return true
+	}
+	batchFirst := r.Bool()
+	if batchFirst && !askBatch() {
+		return
+	}
+	for pass := 0; pass < 2; pass++ {
+		if pass == 1 && !batchFirst && !askBatch() {
 			return
 		}
-		if err != nil {
-			c.Failf("quantile.error", "GetValueAtQuantile(%v) on a non-empty sketch: %v", q, err)
-			return
-		}
-		c.Count("oracle.weighted_quantile_checks", 1)
-		rk := q * (W - 1)
-		// the exact variant clamps the plain answer to the exact extremes: judge the plain answer by the
-		// weighted-rank rule, and the clamped one by equality with clamp(plain, min, max)
-		yr := y
-		if exact {
-			yp, perr := s.E.DDSketch.GetValueAtQuantile(q)
-			if perr != nil {
-				c.Failf("quantile.error", "GetValueAtQuantile(%v) on the embedded sketch: %v", q, perr)
+		for qi, q := range vq {
+			var y float64
+			var err error
+			single := (pass == 0) != batchFirst
+			if pass == 1 && batchFirst {
+				single = true
+			}
+			if pass == 0 && batchFirst {
+				single = false
+			}
+			if single {
+				if c.Guard("GetValueAtQuantile", func() { y, err = k.GetValueAtQuantile(q) }) {
+					return
+				}
+				if err != nil {
+					c.Failf("quantile.error", "GetValueAtQuantile(%v) on a non-empty sketch: %v", q, err)
+					return
+				}
+			} else {
+				y = batch[qi]
+				c.Count("oracle.batch_answers_judged", 1)
+			}
+			c.Count("oracle.weighted_quantile_checks", 1)
+			rk := q * (W - 1)
+			// the exact variant clamps the plain answer to the exact extremes: judge the plain answer by the
+			// weighted-rank rule, and the clamped one by equality with clamp(plain, min, max)
+			yr := y
+			if exact {
+				var yp float64
+				var perr error
+				if single {
+					yp, perr = s.E.DDSketch.GetValueAtQuantile(q)
+				} else {
+					yp = batchPlain[qi]
+				}
+				if perr != nil {
+					c.Failf("quantile.error", "GetValueAtQuantile(%v) on the embedded sketch: %v", q, perr)
+					return
+				}
+				want := yp
+				if want < mn {
+					want = mn
+				}
+				if want > mx {
+					want = mx
+				}
+				if y != want {
+					c.Failf("exact_clamp", "q=%v: exact variant answered %v, expected clamp(%v, %v, %v)", q, y, yp, mn, mx)
+					return
+				}
+				yr = yp
+			}
+			ok := false
+			for i, it := range sorted {
+				a, b := cum[i], cum[i+1]
+				if b < rk-1-tol || a > rk+1+tol {
+					continue
+				}
+				if m.Matches(yr, it.V) {
+					ok = true
+					break
+				}
+			}
+			if !ok {
+				c.Failf("weighted_quantile", "q=%v W=%v rank=%v: answer %v is not within alpha of any absorbed value whose cumulative-weight interval is within 1 of the rank (items %v) mapping %s store %s",
+					q, W, rk, yr, truncItems(sorted, 12), m.Desc, spec)
 				return
 			}
-			want := yp
-			if want < mn {
-				want = mn
-			}
-			if want > mx {
-				want = mx
-			}
-			if y != want {
-				c.Failf("exact_clamp", "q=%v: exact variant answered %v, expected clamp(%v, %v, %v)", q, y, yp, mn, mx)
+			if (!hasNeg && yr < 0) || (!hasPos && yr > 0) || (!hasZero && yr == 0) {
+				c.Failf("empty_side", "q=%v W=%v: answer %v comes from a side of the sketch that holds nothing (neg=%v zero=%v pos=%v)", q, W, yr, hasNeg, hasZero, hasPos)
 				return
 			}
-			yr = yp
-		}
-		ok := false
-		for i, it := range sorted {
-			a, b := cum[i], cum[i+1]
-			if b < rk-1-tol || a > rk+1+tol {
-				continue
+			if y < mn || y > mx {
+				c.Failf("outside_minmax", "q=%v: answer %v outside [GetMinValue, GetMaxValue] = [%v, %v]", q, y, mn, mx)
+				return
 			}
-			if m.Matches(yr, it.V) {
-				ok = true
-				break
-			}
-		}
-		if !ok {
-			c.Failf("weighted_quantile", "q=%v W=%v rank=%v: answer %v is not within alpha of any absorbed value whose cumulative-weight interval is within 1 of the rank (items %v) mapping %s store %s",
-				q, W, rk, yr, truncItems(sorted, 12), m.Desc, spec)
-			return
-		}
-		if (!hasNeg && yr < 0) || (!hasPos && yr > 0) || (!hasZero && yr == 0) {
-			c.Failf("empty_side", "q=%v W=%v: answer %v comes from a side of the sketch that holds nothing (neg=%v zero=%v pos=%v)", q, W, yr, hasNeg, hasZero, hasPos)
-			return
-		}
-		if y < mn || y > mx {
-			c.Failf("outside_minmax", "q=%v: answer %v outside [GetMinValue, GetMaxValue] = [%v, %v]", q, y, mn, mx)
-			return
 		}
 	}
 	if W < 1 || nonInteger {
